@@ -285,7 +285,7 @@ func faultsFor(seq []letter, pos int) []fault {
 				fs = append(fs, fault{typ: fUnequal, pos: pos, entry: e, variant: v})
 			}
 		}
-		if l.kind.IsRangeMapping() {
+		if l.kind.HasBounds() {
 			for v := 0; v < 2; v++ {
 				fs = append(fs, fault{typ: fReversed, pos: pos, entry: e, variant: v})
 			}
